@@ -309,6 +309,27 @@ pub fn run(ctx: &Ctx) -> Result<Run, String> {
     for s in ["", ".", "..", "...", ".com", "com.", "a..com", "COM", "Example.COM", "www.CK", "食狮.公司.cn", "公司.cn", "xn--55qx5d.cn", "\u{0}", "a\u{0}.com", " ", "a b.com", "*.ck", "!www.ck", "*", "!", "com.*", "\u{fffd}.com", "ⓔxample.com"] {
         odd.push(s.to_string());
     }
+    // the other three code points IDNA treats as label separators, at every dot of a sample of
+    // rule-derived names and of fixed names (no-crash and structural checks)
+    for sep in ['\u{3002}', '\u{FF0E}', '\u{FF61}'] {
+        for base in ["example.com", "www.example.co.uk", "x.www.ck", "a.b.c.d.jp", ".com", "com.", "a..b"] {
+            let dots: Vec<usize> = base.match_indices('.').map(|(i, _)| i).collect();
+            for &d in &dots {
+                odd.push(format!("{}{sep}{}", &base[..d], &base[d + 1..]));
+            }
+            odd.push(base.replace('.', &sep.to_string()));
+            odd.push(format!("{sep}{base}"));
+            odd.push(format!("{base}{sep}"));
+        }
+        for n in names.iter().step_by(7) {
+            if let Some(d) = n.find('.') {
+                odd.push(format!("{}{sep}{}", &n[..d], &n[d + 1..]));
+            }
+            if let Some(d) = n.rfind('.') {
+                odd.push(format!("{}{sep}{}", &n[..d], &n[d + 1..]));
+            }
+        }
+    }
     let st = par::sweep_cases(&odd, ctx.threads, |n, st| {
         let canon = canonical(n);
         let (fs, class, nt) = eval_name(&psl, n, canon);
@@ -320,7 +341,7 @@ pub fn run(ctx: &Ctx) -> Result<Run, String> {
     let rules = psl.rules.len();
     let mut run = Run::from_stats(
         "exploration",
-        "every rule of public_suffix_list.dat (A-label form; wildcards instantiated with two labels and their base, exceptions without '!') as-is, with its leading label removed/replaced and with 1..3 labels prepended, compared on public_suffix / effective_tld_plus_one / is_effective_tld with a textbook PSL matcher over the .dat file; half of those names again with Unicode labels prepended (label counts must agree); every rule with each of the 64 most frequent labels of the list (thorough: every distinct label of the list) and the labels of its 4 (8) neighbours in table order in front of it; for every rule an ordered sequence of five lookups on one thread whose names share labels at different levels (reversed rule, rule, repeated top label); plus all strings over {c,k,o,m,u,w,.,A,é} up to the stated length and long/odd names (structural checks always, equality for canonical lower-case ASCII names). Non-trivial = a canonical name whose prevailing rule is an explicit rule of the list",
+        "every rule of public_suffix_list.dat (A-label form; wildcards instantiated with two labels and their base, exceptions without '!') as-is, with its leading label removed/replaced and with 1..3 labels prepended, compared on public_suffix / effective_tld_plus_one / is_effective_tld with a textbook PSL matcher over the .dat file; half of those names again with Unicode labels prepended (label counts must agree); every rule with each of the 64 most frequent labels of the list (thorough: every distinct label of the list) and the labels of its 4 (8) neighbours in table order in front of it; for every rule an ordered sequence of five lookups on one thread whose names share labels at different levels (reversed rule, rule, repeated top label); plus all strings over {c,k,o,m,u,w,.,A,é} up to the stated length and long/odd names incl. the three other IDNA label separators (U+3002, U+FF0E, U+FF61) in place of a dot of fixed and rule-derived names (structural checks always, equality for canonical lower-case ASCII names). Non-trivial = a canonical name whose prevailing rule is an explicit rule of the list",
         true,
         stats,
     );
